@@ -86,6 +86,31 @@ Or2(kind, i, b, m) ==
         /\ root' = text \o " // {or: [{type: \"integer\", min: " \o NumCat[b].text \o "}, {type: \"string\", maxLength: " \o ToString(m) \o "}]}"
         /\ typ' = "" /\ expect' = Verdict(ok)
 
+\* ---- `or` over the whole type vocabulary, alternatives written as a name or as a rule-set
+\* The verdict is stated only where the documented families leave no doubt (a number given to "float"/"decimal",
+\* strings given to a format, are left open: "unknown" projects are still converted and crash-tested).
+TypeVocab == <<"integer", "float", "decimal", "string", "boolean", "null", "email", "uri", "uuid", "date", "datetime",
+               "any", "object", "array", "enum">>
+OrValues == {1, 2, 3, 4, 7, 8}          \* 1, "1", 1.5, "a", true, null of ScalarCat
+Fits(v, T) == LET k == ScalarCat[v].k IN
+              IF T = "any" THEN "yes"
+              ELSE IF T = "enum" THEN (IF ScalarCat[v].id \in {"l:1", "s:a"} THEN "yes" ELSE "no")      \* the list is [1, "a"]
+              ELSE IF k = "integer" THEN (IF T = "integer" THEN "yes" ELSE IF T \in {"float", "decimal"} THEN "open" ELSE "no")
+              ELSE IF k = "float" THEN (IF T = "float" THEN "yes" ELSE IF T = "decimal" THEN "open" ELSE "no")
+              ELSE IF k = "string" THEN (IF T = "string" THEN "yes" ELSE IF T \in {"email", "uri", "uuid", "date", "datetime"} THEN "no" ELSE "no")
+              ELSE IF k = "boolean" THEN (IF T = "boolean" THEN "yes" ELSE "no")
+              ELSE (IF T = "null" THEN "yes" ELSE "no")
+AltText(T, form) == IF T = "enum" THEN "{type: \"enum\", enum: [1, \"a\"]}"        \* an enum needs its list: rule-set form only
+                    ELSE IF T = "decimal" THEN "{type: \"decimal\", precision: 2}"
+                    ELSE IF form = "name" THEN "\"" \o T \o "\"" ELSE "{type: \"" \o T \o "\"}"
+OrVocab(v, i, j, fi, fj, skel) ==
+  /\ stage = "start" /\ fam' = "orvocab" /\ stage' = "done" /\ list' = <<>>
+  /\ i # j
+  /\ LET a == Fits(v, TypeVocab[i]) b == Fits(v, TypeVocab[j]) IN
+     /\ expect' = IF a = "yes" \/ b = "yes" THEN "accept" ELSE IF a = "no" /\ b = "no" THEN "reject" ELSE "unknown"
+     /\ root' = Wrap(skel, ScalarCat[v].text \o " // {or: [" \o AltText(TypeVocab[i], fi) \o ", " \o AltText(TypeVocab[j], fj) \o "]}")
+     /\ typ' = ""
+
 Skels == {"root", "prop", "item", "ref"}
 Next == \/ StartEnum
         \/ \E i \in 1..N : EnumAdd(i)
@@ -95,6 +120,7 @@ Next == \/ StartEnum
         \/ \E i \in 1..Len(FmtCat), s \in Skels \ {"ref"} : Format(i, s)
         \/ \E i \in 1..Len(NumCat), b \in 1..Len(NumCat), m \in 0..2 : Or2("num", i, b, m)
         \/ \E i \in 1..Len(StrCat), b \in 1..Len(NumCat), m \in 0..2 : Or2("str", i, b, m)
+        \/ \E v \in OrValues, i, j \in 1..Len(TypeVocab), fi, fj \in {"name", "set"}, s \in {"root", "prop"} : OrVocab(v, i, j, fi, fj, s)
 Spec == Init /\ [][Next]_vars
 
 \* a value is always a member of an enum that lists it; const accepts its own example
